@@ -512,7 +512,7 @@ def r4_accumulation(rep, src, M):
     ps = paths.Enumerator(paths.Folder()).run(after, [paths.Path()])
     ok = bool(ps)
     for p_ in ps:
-        pending = [pol for t, pol in p_.conds if norm(t) == 'curkey']
+        pending = [pol if norm(t) != 'curkey is None' else not pol for t, pol in p_.conds if norm(t) in ('curkey', 'curkey is not None', 'curkey is None')]
         flushed = any(e[0] == 'store' and e[1] == 'self[curkey]' and norm(e[2]) == 'content' for e in p_.events)
         if (not pending or pending[0]) and not flushed:
             ok = False
@@ -676,6 +676,56 @@ def r8_piecewise_encoding(rep, src):
         raise AnalysisError('C02.R8: fewer than two piecewise encoders found (%d)' % n)
 
 
+def r9_paragraphs_share_no_container(rep, src):
+    """the paragraphs that one iter_paragraphs() call produces are independent objects: what one of them spells, holds or caches does
+    not reach the next.  Ownership rule on every iter_paragraphs of the module: a builtin container (dict / list / set display or
+    constructor, defaultdict, OrderedDict) created OUTSIDE the loop that builds the paragraphs is not handed to the paragraph
+    constructor inside it -- such an object is one table for the whole document (field-name spellings, values or flags of an
+    earlier paragraph would answer for a later one).  The input iterator and the configuration values are shared by design."""
+    mod = src.mod('deb822')
+    n = 0
+    MUT = ('dict', 'list', 'set', 'collections.defaultdict', 'defaultdict', 'collections.OrderedDict', 'OrderedDict', 'collections.deque', 'deque', 'bytearray')
+    for q, f in sorted(mod.funcs.items()):
+        if not q.endswith('.iter_paragraphs') or '#' in q:
+            continue
+        loops = [l_ for l_ in ast.walk(f.node) if isinstance(l_, (ast.For, ast.While))]
+        ctor_loops = []
+        for l_ in loops:
+            calls = [c for c in ast.walk(l_) if isinstance(c, ast.Call) and isinstance(c.func, ast.Name) and (c.func.id == 'cls' or c.func.id in mod.classes)]
+            if calls:
+                ctor_loops.append((l_, calls))
+        if not ctor_loops:
+            continue
+        rep.saw_func(f)
+        inside = {id(n_) for l_, _c in ctor_loops for n_ in ast.walk(l_)}
+        shared, other = {}, set()
+        for st in ast.walk(f.node):
+            if isinstance(st, (ast.Assign, ast.AnnAssign)):
+                tgt = st.targets[0] if isinstance(st, ast.Assign) else st.target
+                v = st.value
+                if not isinstance(tgt, ast.Name) or v is None:
+                    continue
+                if id(st) not in inside and (isinstance(v, (ast.Dict, ast.List, ast.Set, ast.ListComp, ast.DictComp, ast.SetComp))
+                                             or (isinstance(v, ast.Call) and norm(v.func) in MUT)):
+                    shared.setdefault(tgt.id, st)
+                else:
+                    other.add(tgt.id)         # (a placeholder that is re-bound to something else -- the input iterator -- is not that container)
+        shared = {k_: v_ for k_, v_ in shared.items() if k_ not in other}
+        for l_, calls in ctor_loops:
+            for c in calls:
+                n += 1
+                what = 'paragraph constructor `%s` in the loop of %s' % (norm(c)[:50], q)
+                used = sorted({x.id for a_ in list(c.args) + [k_.value for k_ in c.keywords] for x in ast.walk(a_) if isinstance(x, ast.Name) and x.id in shared})
+                if used:
+                    rep.fail('C02.R9', f.site, what, 'the container `%s`, created once (line %d) before the loop, is handed to every paragraph of the document: what an earlier '
+                             'paragraph put into it (e.g. the spelling of a field name) answers for a later one -- a document whose paragraphs spell a field differently '
+                             '("Package" / "package") reads back with the first spelling everywhere' % (used[0], shared[used[0]].lineno), where='%s:%d' % (mod.relpath, c.lineno))
+                else:
+                    rep.ok('C02.R9', f.site, what, 'only the input, configuration values and objects made for this paragraph', nontrivial=False)
+    if n < 2:
+        raise AnalysisError('fewer than two paragraph constructors in iter_paragraphs loops (%d)' % n)
+
+
 def r7_encoding_reaches_decoder(rep, src):
     """a reader that turns text lines into bytes before handing them to the paragraph parser (to keep the raw bytes of a signed
     document) must have them decoded with the encoding it encoded them with: the encoding argument of the encode helper flows
@@ -818,3 +868,5 @@ def check(src, rep, tier):
     rep.guard('C02.R7', r7_encoding_reaches_decoder, src)
     rep.need('C02.R8', 2)
     rep.guard('C02.R8', r8_piecewise_encoding, src)
+    rep.need('C02.R9', 2)
+    rep.guard('C02.R9', r9_paragraphs_share_no_container, src)
